@@ -115,5 +115,17 @@ func unpackStreamReader[T any](isr streamReader) (*schema.StreamReader[T], bool)
 		}), true
 	}
 
+	if isr.getChunkType().Kind() == reflect.Interface {
+		// chunks of unknown dynamic type (e.g. what an any-typed state handler of a pass-through node returns):
+		// narrowed one by one, as a value is in invoke mode
+		return schema.StreamReaderWithConvert(isr.toAnyStreamReader(), func(t any) (T, error) {
+			v, ok := t.(T)
+			if !ok {
+				return v, fmt.Errorf("runtime type check fail, expected type: %v, actual type: %T", typ, t)
+			}
+			return v, nil
+		}), true
+	}
+
 	return nil, false
 }
